@@ -70,7 +70,20 @@ public:
 
   value_t eval(symbol_params &p) const final
   {
-    return static_cast<base_t>(p.fetch_param());
+    // The conversion of a floating-point value that, once truncated, cannot
+    // be represented in the destination type is undefined behaviour. A
+    // parameter that doesn't come from `init` (e.g. it has been read from a
+    // file) is saturated like the results of the arithmetic primitives.
+    const auto v(p.fetch_param());
+
+    if (v >= static_cast<terminal_param_t>(std::numeric_limits<base_t>::max()))
+      return std::numeric_limits<base_t>::max();
+    if (v <= static_cast<terminal_param_t>(std::numeric_limits<base_t>::min()))
+      return std::numeric_limits<base_t>::min();
+    if (v != v)  // NaN
+      return base_t(0);
+
+    return static_cast<base_t>(v);
   }
 
 private:
